@@ -1517,16 +1517,9 @@ theorem step_inv (env : Env) (hE : EnvOk env) (st : State) (ev : Event) (ha : ev
         rcases hcs with h | h
         · exact Or.inl h
         · exact Or.inr (real_nil_of_isEmpty env (by simpa [Event.touchesFunctions] using h))
-      cases k with
-      | normal =>
-        simp only
-        obtain ⟨a1, _, a3⟩ := runCalls_bare_inv env hE ctxIR.post _ hI0
-        obtain ⟨b1, _, b3⟩ := runCalls_bare_inv env hE ctxIR.fin _ a1
-        exact ⟨b1, fun hf hcs => b3 (a3 (fnState_ctx st n hf) (hcase hcs)) (hcase hcs)⟩
-      | exn =>
-        simp only
-        obtain ⟨b1, _, b3⟩ := runCalls_bare_inv env hE ctxIR.fin _ hI0
-        exact ⟨b1, fun hf hcs => b3 (fnState_ctx st n hf) (hcase hcs)⟩
+      obtain ⟨a1, _, a3⟩ := runCalls_bare_inv env hE (exitSegment ctxIR k) _ hI0
+      obtain ⟨b1, _, b3⟩ := runCalls_bare_inv env hE ctxIR.fin _ a1
+      exact ⟨b1, fun hf hcs => b3 (a3 (fnState_ctx st n hf) (hcase hcs)) (hcase hcs)⟩
 
 theorem run_inv (env : Env) (hE : EnvOk env) :
     ∀ (evs : List Event) (st : State), evs.all Event.actOnly = true → Inv st →
